@@ -157,7 +157,7 @@ CLAIMED = {
              "hypothesis is shown necessary); C08_self_replacement_terms: when the pattern carries no terms of its own, every bond, angle, dihedral and "
              "improper tuple of the structure and its type are unchanged, in order; C08_self_replacement_elements: every atom resolves to the same "
              "element as before, for any number of matches, given that each matched atom has the element of its pattern atom (what C01_sound "
-             "guarantees of the search). PARTIAL: the substitution "
+             "guarantees of the search); C08_self_replacement_never_refused: matches that share atoms are not an overlap error, since nothing is deleted. PARTIAL: the substitution "
              "round trip A->B->A and 'a second search finds none' depend on search completeness and are validated per run on single-site and "
              "multi-atom boundary-crossing patterns.",
         design_ref="DESIGN.md section 5, C08",
